@@ -2,7 +2,7 @@
    timed history of every schedule of the model that ends quiescent. *)
 From Moc Require Import Base Match MatchProofs Router RouterSpec RouterHist RouterLemmas RouterFrame RouterTrans RouterData
   RouterMust RouterEnv RouterInv RouterDataInv RouterOnce RouterOrder RouterReplies RouterProofs
-  RouterHistBase RouterHistInv RouterHistCopy.
+  RouterHistBase RouterHistInv RouterHistCopy RouterHistReplies.
 From Coq Require Import Sorted.
 Open Scope Z_scope.
 
@@ -18,20 +18,21 @@ Record AllInv (buf : nat) (st : istate) : Prop := mkAll {
   a_m : MInv st;
   a_c : CopyInv st;
   a_o : OutInv st;
-  a_f : FullInv st
+  a_f : FullInv st;
+  a_r : RHInv st
 }.
 
 Lemma AllInv_init buf : AllInv buf (i_init buf).
 Proof.
   constructor; [constructor | apply HInv_init | apply PubInv_init | apply AInv_init | apply KInv_init | apply MInv_init
-               | apply CopyInv_init | intro x; constructor | apply FullInv_init].
+               | apply CopyInv_init | intro x; constructor | apply FullInv_init | apply RHInv_init].
 Qed.
 
 Lemma AllInv_step buf st l : AllInv buf st -> AllInv buf (istep st l).
 Proof.
-  intros [R HI PI AI KI MI CI OI FI]. constructor.
+  intros [R HI PI AI KI MI CI OI FI RH]. constructor.
   - rewrite istep_s. now constructor.
-  - now apply HInv_step.
+  - now apply (HInv_step buf).
   - eapply PubInv_step; eassumption.
   - eapply AInv_step; eassumption.
   - eapply KInv_step; eassumption.
@@ -39,6 +40,7 @@ Proof.
   - eapply CopyInv_step; eassumption.
   - eapply OutInv_step; eassumption.
   - eapply FullInv_step; eassumption.
+  - eapply RHInv_step; eassumption.
 Qed.
 
 Lemma AllInv_irun buf st tr : AllInv buf st -> AllInv buf (irun st tr).
@@ -87,7 +89,7 @@ Proof.
   intros HN Hwf. apply (irun_hops_origin (fun c => (c < N)%nat) wf_op).
   { intros h0 Hin0. cbn in Hin0. contradiction. }
   unfold conns_below in HN. rewrite Forall_forall in *. intros l Hl. specialize (HN l Hl). specialize (Hwf l Hl).
-  destruct l as [c o| | | |]; auto.
+  destruct l as [c o| | | | |]; auto.
 Qed.
 
 (* ------------------------------------------------------------------ *)
@@ -123,11 +125,19 @@ Proof.
   - intros [Hin Ho]. exists P. split; [assumption|]. unfold is_pub. rewrite Ho. now left.
 Qed.
 
-Lemma has_disc_spec N st x : HInv st -> has_disc (hist_of N st) x = true <-> In ODisc (c_ops (r_cs (i_s st) x)).
+Lemma has_disc_spec N st x :
+  HInv st -> has_disc (hist_of N st) x = true <-> In ODisc (c_ops (r_cs (i_s st) x)) \/ In x (r_cancel (i_s st)).
 Proof.
-  intro HI. unfold has_disc. rewrite ops_of_hist, <- (h_ops st HI x), existsb_exists, in_map_iff. split.
-  - intros (o & Hin & Ho). exists o. split; [|assumption]. destruct (h_o o); try discriminate. reflexivity.
-  - intros (o & Ho & Hin). exists o. split; [assumption|]. now rewrite Ho.
+  intro HI. unfold has_disc. rewrite ops_of_hist.
+  assert (E : existsb (fun o : hop => match h_o o with ODisc => true | _ => false end) (xops x (i_hops st)) = true <->
+              In ODisc (List.map h_o (xops x (i_hops st)))).
+  { rewrite existsb_exists, in_map_iff. split.
+    - intros (o & Hin & Ho). exists o. split; [|assumption]. destruct (h_o o); try discriminate. reflexivity.
+    - intros (o & Ho & Hin). exists o. split; [assumption|]. now rewrite Ho. }
+  rewrite E, (h_ops st HI x), in_app_iff. unfold cancel_tail.
+  destruct (mem_conn x (r_cancel (i_s st))) eqn:Ec.
+  - apply mem_conn_In in Ec. split; [intros [H|H]; auto | intros [H|H]; [now left | right; now left]].
+  - apply mem_conn_false in Ec. split; [intros [H|[]]; auto | intros [H|H]; [now left | contradiction]].
 Qed.
 
 (* ------------------------------------------------------------------ *)
@@ -150,24 +160,50 @@ Qed.
 Lemma filter_map_swap {A B} (f : B -> bool) (g : A -> B) l : filter f (List.map g l) = List.map g (filter (fun a => f (g a)) l).
 Proof. induction l as [|a l IH]; [reflexivity|]. cbn. destruct (f (g a)); cbn; now rewrite IH. Qed.
 
+Lemma filter_filter_comm {A} (f g : A -> bool) l : filter f (filter g l) = filter g (filter f l).
+Proof.
+  induction l as [|a l IH]; [reflexivity|]. cbn. destruct (g a) eqn:Eg, (f a) eqn:Ef; cbn; rewrite ?Eg, ?Ef, IH; reflexivity.
+Qed.
+
+Lemma rep_hops_expected L : rep_hops L = expected_replies (List.map h_o (filter (fun h => is_some (h_d h)) L)).
+Proof.
+  induction L as [|a L IH]; [reflexivity|]. unfold rep_hops, expected_replies in *. cbn [flat_map filter].
+  unfold contrib at 1. destruct (is_some (h_d a)); cbn [List.map flat_map]; now rewrite IH.
+Qed.
+
 Lemma replies_ok_model buf N st :
   AllInv buf st -> quiescent (i_s st) -> replies_ok (hist_of N st) = true.
 Proof.
   intros A Qs. pose proof (a_h _ _ A) as HI. unfold replies_ok. apply forallb_forall. intros x Hx.
   rewrite hist_outs_len in Hx. apply in_seq in Hx. assert (Hx' : (x < N)%nat) by lia.
   rewrite ops_of_hist, (outs_of_hist _ _ _ Hx'). apply andb_true_iff. split.
-  - apply forallb_forall. intros o Ho. apply filter_In in Ho as [Ho Hw]. apply xops_In in Ho as [Ho Hc].
-    destruct (h_d o) eqn:Ed; [reflexivity|]. exfalso.
+  - (* an operation without end stamp was in flight when the client disconnected *)
+    apply forallb_forall. intros o Ho. apply filter_In in Ho as [Ho Hw]. apply xops_In in Ho as [Ho Hc].
+    destruct (h_d o) eqn:Ed; [reflexivity|]. cbn [is_some orb].
     assert (Hcl : is_close (h_o o) = false) by (destruct (h_o o); try discriminate; reflexivity).
-    destruct (h_open st HI o Ho Ed Hcl) as [Hne _]. apply Hne. apply Qs.
+    assert (Hk : is_disc (h_o o) = false) by (destruct (h_o o); try discriminate; reflexivity).
+    destruct (h_open st HI o Ho Ed Hcl Hk) as [Last Hb]. destruct Qs as [Qc Qs].
+    destruct Hb as [Hb|[Hb|Hb]]; [exfalso; apply Hb; apply Qs | rewrite Qc in Hb; contradiction|].
+    (* the connection is dead: its disconnect is an operation after o *)
+    pose proof (DDInv_reachable buf _ (a_reach _ _ A) _ Hb) as Hd.
+    rewrite <- (app_nil_r (c_ops _)) in Hd.
+    assert (Hd' : In ODisc (List.map h_o (xops (h_c o) (i_hops st)))).
+    { rewrite (h_ops st HI (h_c o)). apply in_app_iff in Hd as [Hd|[]]. apply in_or_app. now left. }
+    apply in_map_iff in Hd' as (kd & Hokd & Hkd). apply xops_In in Hkd as [Hkd Hckd].
+    unfold disc_after. rewrite ops_of_hist. apply existsb_exists. exists kd. split; [apply xops_In; split; congruence|].
+    rewrite Hokd. apply Z.ltb_lt.
+    assert (Hkdd : is_disc (h_o kd) = true) by (now rewrite Hokd).
+    destruct (h_disc st HI kd Hkd Hkdd) as (Lastd & _).
+    assert (A1 : h_b o <= h_b kd) by (apply Lastd; [assumption | congruence]).
+    destruct (Z.eq_dec (h_b o) (h_b kd)) as [Eq|Nq]; [|lia]. exfalso.
+    assert (o = kd) by (eapply hop_eq_of_b; [apply HI | assumption | assumption | assumption]). subst kd. congruence.
   - rewrite map_map.
     assert (E : List.map (fun x0 : smsg * Z => fst (xout x0)) (i_outs st x) = List.map xmsg_of (c_out (r_cs (i_s st) x))).
     { destruct (h_outs st HI x) as [<- _]. rewrite map_map. reflexivity. }
-    rewrite E, filter_xevent_map.
-    rewrite (replies_exact buf _ x (a_reach _ _ A)) by apply Qs.
-    rewrite <- (h_ops st HI x).
-    replace (List.map h_o (filter (fun o => wants_reply (h_o o)) (xops x (i_hops st))))
-      with (filter wants_reply (List.map h_o (xops x (i_hops st)))) by (apply filter_map_swap).
+    rewrite E, filter_xevent_map, (a_r _ _ A x), rep_hops_expected.
+    rewrite filter_filter_comm.
+    replace (List.map h_o (filter (fun o => wants_reply (h_o o)) (filter (fun o => is_some (h_d o)) (xops x (i_hops st)))))
+      with (filter wants_reply (List.map h_o (filter (fun o => is_some (h_d o)) (xops x (i_hops st))))) by (apply filter_map_swap).
     apply replies_match_expected.
 Qed.
 
@@ -470,11 +506,11 @@ Proof.
   destruct (a_m _ _ A P q (h_c P) n e sub fs qd HP HoP Hq Hoq Hdq C1 Hm Prem) as [_ C].
   destruct (has_disc (hist_of N st) (h_c q)) eqn:Hdisc; [now left | right].
   assert (Nd : ~ In ODisc (c_ops (r_cs (i_s st) (h_c q)))).
-  { intro X. apply (has_disc_spec N st (h_c q) HI) in X. congruence. }
+  { intro X. assert (Y : has_disc (hist_of N st) (h_c q) = true) by (apply (has_disc_spec N st (h_c q) HI); now left). congruence. }
   assert (Alive : c_dead (r_cs (i_s st) (h_c q)) = false).
   { destruct (c_dead (r_cs (i_s st) (h_c q))) eqn:Ed; [|reflexivity]. exfalso. apply Nd.
     now apply (DDInv_reachable buf _ R). }
-  destruct (Qs (h_c q)) as [_ Hq0]. destruct (Hq0 Alive) as [Hq1 Hh1].
+  destruct (proj2 Qs (h_c q)) as [_ Hq0]. destruct (Hq0 Alive) as [Hq1 Hh1].
   destruct C as [[G|G]|G]; [congruence | | | contradiction].
   - (* the copy is in the flow, hence received *)
     left. apply In_flow in G. rewrite Hq1, Hh1 in G. destruct G as [G|[G|[]]]; [|discriminate].
